@@ -355,6 +355,8 @@ def feasible(cons, bnd=None):
         if r is None:
             continue
         for ne in nes:
+            if len(ne.c) == 1:
+                continue  # single-atom disequalities were handled exactly by the interval tightening above
             # lin != 0 is violated iff lin == 0 is forced
             lo, hi = bounds(ne, [c for c in comp if c[1] != "!="], bnd)
             if lo == 0 and hi == 0:
